@@ -56,6 +56,7 @@ FIRST = {
  "C02-b": {"C02": {"exit": 0, "violation_lines": 0}},
  "C17-b": {"C17": {"exit": 0, "violation_lines": 0}, "C12": {"exit": 0, "violation_lines": 0}},
  "C05-c": {"C05": {"exit": 0, "violation_lines": 0}},
+ "C17-c": {"C17": "exit 1, but only with lines of the known scan finding in a new obligation (not the seed)", "C15": {"exit": 1, "violation_lines": 48}},
  "C02-c": {"C02": {"exit": 0, "violation_lines": 0}},
  "C11-c": {"C11": {"exit": 0, "violation_lines": 0}, "C05": {"exit": 0, "violation_lines": 0}},
  "C01-c": {"C01": {"exit": 0, "violation_lines": 0}},
